@@ -153,7 +153,11 @@ impl FromStr for PrettyDecimal {
                     if scale.is_none() && format.is_none() && i >= 3 + prefix_len {
                         format = Some(Format::Plain);
                     }
-                    mantissa = mantissa * 10 + (c as u32 - '0' as u32) as i128;
+                    let digit = (c - b'0') as i128;
+                    mantissa = mantissa
+                        .checked_mul(10)
+                        .and_then(|m| m.checked_add(digit))
+                        .ok_or(rust_decimal::Error::ExceedsMaximumPossibleValue)?;
                     scale = scale.map(|x| x + 1);
                 }
                 _ => {
